@@ -333,7 +333,10 @@ def cross3(cls, a, b, c, tag='x3'):
 FOUR = (('X', 'SIX', 'S', 'X'), ('X', 'S', 'SIX', 'X'), ('X', 'S', 'S', 'X'), ('S', 'X', 'S', 'X'), ('SIX', 'S', 'X', 'S'),
         ('X', 'X', 'S', 'S'), ('S', 'S', 'X', 'SIX'), ('X', 'SIX', 'S', 'SIX'), ('SIX', 'X', 'S', 'X'), ('S', 'SIX', 'X', 'S'),
         ('X', 'S', 'X', 'S'), ('SIX', 'S', 'S', 'X'), ('X', 'SIX', 'SIX', 'S'), ('S', 'X', 'SIX', 'S'), ('S', 'X', 'S', 'S'),
-        ('S', 'SIX', 'S', 'S'), ('X', 'X', 'S', 'S'))
+        ('S', 'SIX', 'S', 'S'), ('X', 'X', 'S', 'S'),
+        # the first holder comes back for the lock while the group it handed over to is still in (node reuse from the cache)
+        ('XX', 'S', 'S', 'X'), ('XX', 'S', 'S', 'SIX'), ('XS', 'S', 'S', 'X'), ('XX', 'S', 'X', 'S'), ('DNUP', 'S', 'S', 'X'),
+        ('UPDN', 'S', 'S', 'X'))
 
 
 def four(cls, full=False):
